@@ -131,14 +131,22 @@ theorem cwd_beyond_path_max_not_enobufs (v : List Byte) (size : Nat) (hv : scrat
   have h2 : ¬ v.length + 1 ≤ scratchCap := by omega
   simp [cwd, cwdR, h0', h1, h2]
 
-/-- whatever glibc's getcwd left in the buffer when it failed (paths ≥ PATH_MAX go through its fallback,
-which writes inside the buffer before answering ERANGE): same return code and `*size`, and uv_cwd adds no
-store of its own on that path, so every store stays below `size` -/
+/-- whatever else glibc's getcwd left in the buffer (paths ≥ PATH_MAX go through its fallback, which
+builds the path from the end of the buffer): same return code and `*size`, every store stays below `size`
+as long as libc's did, and on success the buffer still holds the true value and its terminator -/
 theorem cwd_with_getcwd_residue (v : List Byte) (size : Nat) (residue : Writes)
     (h : ∀ p ∈ residue, p.1 < size) :
     (cwdR v size residue).rc = (cwd v size).rc ∧ (cwdR v size residue).size = (cwd v size).size ∧
-    ∀ p ∈ (cwdR v size residue).writes, p.1 < size :=
-  ⟨(cwdR_answer v size residue).1, (cwdR_answer v size residue).2, cwdR_bounded v size residue h⟩
+    (∀ p ∈ (cwdR v size residue).writes, p.1 < size) ∧
+    ((cwd v size).rc = 0 → HoldsString (cwdR v size residue).writes (stripSlash v)) := by
+  refine ⟨(cwdR_answer v size residue).1, (cwdR_answer v size residue).2, cwdR_bounded v size residue h, ?_⟩
+  intro hrc
+  have hpos : 0 < size := by
+    cases size with
+    | zero => simp [cwd, cwdR, EINVAL] at hrc
+    | succ n => omega
+  rw [cwdR_writes v size residue hpos]
+  exact holds_after _ _ _ (success_len_and_value .cwd v size trivial hrc).2
 
 /-- the property as the record states it, for uv_cwd without the PATH_MAX bound: refuted by the theorem above -/
 def cwd_full_statement : Prop :=
